@@ -53,6 +53,16 @@ pub struct Quota {
     max_tokens: u64,
 }
 
+#[cfg(feature = "verif-hooks")]
+impl Quota {
+    pub(crate) fn verif_new(max_tokens: u64, replenish_all_every: Duration) -> Self {
+        Quota {
+            replenish_all_every,
+            max_tokens,
+        }
+    }
+}
+
 /// Manages rate limiting of requests per peer, with differentiated rates per protocol.
 #[derive(Debug, Clone)]
 pub struct RateLimiter {
